@@ -14,6 +14,12 @@ from secsgem.hsms.message import HsmsBlock, HsmsMessage
 STYPES = [0, 1, 2, 3, 4, 5, 6, 7, 9]
 
 
+def incomplete(buffer):
+    """the receive buffer starts with a frame whose length is known but which has not arrived completely"""
+    data = bytes(buffer._buffer)
+    return len(data) >= 4 and int.from_bytes(data[:4], "big") + 4 > len(data)
+
+
 def hdr_lit(h):
     return ("{| h_system := %s; h_session := %s; h_stream := %s; h_function := %s; h_w := %s; h_ptype := %s; h_stype := %s |}"
             % (L.z(h["system"]), L.z(h["session"]), L.z(h["stream"]), L.z(h["function"]), L.bool_(h["w"]), L.z(h["ptype"]), L.z(h["stype"])))
@@ -60,7 +66,7 @@ _rig = None
 
 def rig():
     global _rig
-    if _rig is None or _rig.buffer.blocked or len(_rig.buffer) > 0:
+    if _rig is None or incomplete(_rig.buffer) or len(_rig.buffer) > 0:
         if _rig is not None:
             _rig.stop()
         _rig = protorig.HsmsRig(active=False, inert=True)
@@ -77,7 +83,7 @@ def obs_stream(segs):
             raise RuntimeError("rig did not settle")
     delivered = [(hdr_of(m.header), bytes(m.data)) for m in r.delivered]
     lit = ("(HStream [" + ";".join(L.nlist(s) for s in segs) + "] ["
-           + ";".join(f"({hdr_lit(h)}, {L.nlist(d)})" for h, d in delivered) + f"] {len(r.buffer)} {L.bool_(r.buffer.blocked)})")
+           + ";".join(f"({hdr_lit(h)}, {L.nlist(d)})" for h, d in delivered) + f"] {len(r.buffer)} {L.bool_(incomplete(r.buffer))})")
     return lit
 
 
@@ -169,7 +175,7 @@ SPEC_CODES = {30: "an in-range message could not be encoded", 31: "frame bytes d
               34: "fields changed in an encode/decode round trip", 35: "the number of delivered messages differs from the frames in the stream (lost, duplicated or merged)",
               36: "a delivered message differs from the frame in the stream", 37: "the receive buffer does not hold exactly the unfinished tail"}
 MODEL_CODES = {10: "frame encoding differs from the model", 11: "frame decoding differs from the model", 12: "delivered messages differ from the model",
-               13: "buffered byte count differs from the model", 14: "receiver parked/not parked differs from the model"}
+               13: "buffered byte count differs from the model", 14: "an incomplete frame is pending / not pending, unlike the model"}
 
 
 def run(tier, replay=None):
